@@ -1244,9 +1244,26 @@ public:
             for (auto& el : *b)
                 if (auto cs = el.getAs<CFGStmt>())
                     stmts.push_back(cs->getStmt());
+            // a statement is a root unless another element with a different stripped identity contains it;
+            // among wrappers of one expression (casts, cleanups, temporaries) the outermost (last) is kept
+            auto keyOf = [&](const Stmt* s) -> const Stmt* {
+                if (auto* ex = dyn_cast<Expr>(s))
+                    return strip(ex);
+                return s;
+            };
             std::set<const Stmt*> covered;
-            for (auto* s : stmts)
-                collectSameBlock(s, covered);
+            for (auto* u : stmts)
+            {
+                std::set<const Stmt*> d;
+                collectSameBlock(u, d);
+                for (auto* x : d)
+                    if (keyOf(x) != keyOf(u))
+                        covered.insert(x);
+            }
+            std::map<const Stmt*, const Stmt*> lastOfKey;
+            for (auto* u : stmts)
+                if (!covered.count(u))
+                    lastOfKey[keyOf(u)] = u;
             // constructor initialisers appear both as CFGStmt and as CFGInitializer: keep the latter
             std::set<const Stmt*> initExprs;
             for (auto& el : *b)
@@ -1264,18 +1281,13 @@ public:
                     const Stmt* s = cs->getStmt();
                     if (covered.count(s))
                         continue;
+                    if (lastOfKey[keyOf(s)] != s)
+                        continue;
                     if (initExprs.count(s))
                         continue;
                     if (auto* ex0 = dyn_cast<Expr>(s))
                         if (initExprs.count(strip(ex0)))
                             continue;
-                    // wrappers whose stripped form is covered / identical
-                    if (auto* ex = dyn_cast<Expr>(s))
-                    {
-                        const Expr* st = strip(ex);
-                        if (st != ex && covered.count(st))
-                            continue;
-                    }
                     json::Object je;
                     je["kind"] = "stmt";
                     je["ln"] = lineOf(s->getBeginLoc());
